@@ -189,6 +189,10 @@ def stepped_cases(seed, tier, base=3000):
     # the same with the repair's first read failing (every first verb x what follows, no second unresolved write)
     rd = [p for p in pl if p[3] is None and p[2] == "-" and p[1] in ("upd", "none", "recreate", "compact", "other")]
     cases += [gen_stepped(seed, base + 300 + i, ENGINES[i % 3], p, rdfault=True) for i, p in enumerate(rd)]
+    # ... and with a SECOND unresolved write (another key) queued behind the head whose read fails, then a compaction request:
+    # the head stays the head (the queue is in revision order: its first entry caps compaction)
+    rd2 = [(verb, "compact", "-", "other") for verb in ("delete", "update", "create")]
+    cases += [gen_stepped(seed, base + 400 + i, ENGINES[i % 3], p, rdfault=True) for i, p in enumerate(rd2)]
     n_rand = 12 if tier == "quick" else 900
     cases += [gen_stepped(seed, base + 500 + i, ENGINES[i % 3]) for i in range(n_rand)]
     return cases, len(pl)
